@@ -171,6 +171,8 @@ class Program:
         self.list_models = {}       # list object -> (loop id, iterated term, initial items, value appended per iteration)
         self.genobjs = {}           # site -> (call node, bound arguments) of generator objects created but not yet run
         self.closures = {}          # site -> nested function definition + defining scope
+        self.funcrefs = {}          # key -> (class, definition, decorator level): what a decorator receives
+        self.wrappers = {}          # key -> closure a user decorator returned for a definition
 
     def _base_name(self, m, b):
         d = self.dotted_of(m, b)
@@ -665,6 +667,46 @@ def memoised(fn):
     return None
 
 
+KNOWN_DECORATORS = {"property", "staticmethod", "classmethod", "abstractmethod", "abc.abstractmethod",
+                    "abc.abstractproperty", "typing.overload", "overload", "typing.final", "final",
+                    "contextmanager", "contextlib.contextmanager", "functools.wraps", "wraps",
+                    "dataclass", "dataclasses.dataclass"} | set(MEMO_DECORATORS)
+
+
+def user_decorators(fn):
+    """Decorators of a definition that are not part of the table of known ones, innermost first."""
+    out = []
+    for d in reversed(getattr(fn, "decorator_list", ())):
+        name = ast.unparse(d.func if isinstance(d, ast.Call) else d)
+        if name in KNOWN_DECORATORS or name.endswith((".setter", ".getter", ".deleter")):
+            continue
+        out.append(d)
+    return out
+
+
+def forwarding_decorator(node):
+    """Is this function a decorator that only forwards: `def deco(fn): [@wraps(fn)] def w(*a, **k): return fn(*a, **k); return w`?"""
+    if not isinstance(node, ast.FunctionDef) or len(node.args.args) != 1:
+        return False
+    fn_name = node.args.args[0].arg
+    body = [s for s in node.body if not (isinstance(s, ast.Expr) and isinstance(s.value, ast.Constant))]
+    if len(body) != 2 or not isinstance(body[0], ast.FunctionDef) or not isinstance(body[1], ast.Return):
+        return False
+    w = body[0]
+    if not (isinstance(body[1].value, ast.Name) and body[1].value.id == w.name):
+        return False
+    if not (w.args.vararg and w.args.kwarg and not w.args.args):
+        return False
+    wb = [s for s in w.body if not (isinstance(s, ast.Expr) and isinstance(s.value, ast.Constant))]
+    if len(wb) != 1 or not isinstance(wb[0], ast.Return) or not isinstance(wb[0].value, ast.Call):
+        return False
+    c = wb[0].value
+    return isinstance(c.func, ast.Name) and c.func.id == fn_name and len(c.args) == 1 and \
+        isinstance(c.args[0], ast.Starred) and isinstance(c.args[0].value, ast.Name) and \
+        c.args[0].value.id == w.args.vararg.arg and len(c.keywords) == 1 and c.keywords[0].arg is None and \
+        isinstance(c.keywords[0].value, ast.Name) and c.keywords[0].value.id == w.args.kwarg.arg
+
+
 def memo_value(fn, value):
     """What a call of a memoised function yields: the value computed by the first call with these arguments
     if there was one (it is not recomputed when the state it was computed from has changed), else `value`."""
@@ -1113,14 +1155,35 @@ class Summariser:
         for n in ast.walk(self.fn):
             if isinstance(n, (ast.Yield, ast.YieldFrom)):
                 raise Unsupported(f"generator {self.fn.name} at {self.module.path}:{self.fn.lineno}")
-        events, term, ret = self.block(self.fn.body)
+        level = len(user_decorators(self.fn)) if self.depth == 0 else 0
+        if level:
+            # a decorated entry point: what runs is the wrapper its decorators returned, called with the
+            # parameters of the definition
+            a = self.fn.args
+            names = [x.arg for x in a.posonlyargs + a.args]
+            if self.cls is not None and not self.is_static:
+                names = names[1:]
+            if a.vararg or a.kwarg:
+                raise Unsupported(f"decorated {self.fn.name} with *args at {self.module.path}:{self.fn.lineno}")
+            pos = tuple(self.env[n] for n in names)
+            if self.cls is not None and not self.is_static:
+                pos = (("self",),) + pos
+            kw = tuple((x.arg, self.env[x.arg]) for x in a.kwonlyargs)
+            w = self.wrapper_of(self.owner if self.cls is not None else None, self.fn, level)
+            outer, self.fnstack = [], ()
+            ret = self.inline_closure(w, pos, kw, outer, self.fn)
+            events, term = list(outer[-1].body), False
+            fields = dict(self.fields)
+        else:
+            events, term, ret = self.block(self.fn.body)
+            fields = self.exit_fields(term)
         s = Summary()
         s.events = events
         s.ret = ret if ret is not None else ("const", None)
         if not term and ret is not None:
             s.ret = ret
         s.ret = memo_value(self.fn, s.ret)
-        s.fields, s.env = self.exit_fields(term), self.env
+        s.fields, s.env = fields, self.env
         for k in [k for k in s.fields if k.startswith("%")]:
             del s.fields[k]                 # state of local collaborator objects
         for k, v in list(s.fields.items()):
@@ -2096,6 +2159,8 @@ class Summariser:
             if k.arg is None and v[0] == "new" and v[2] == "dict" and v[3] and \
                     all(i[0] == "kv" and i[1][0] == "const" and isinstance(i[1][1], str) for i in v[3]):
                 kwargs.extend((i[1][1], i[2]) for i in v[3])         # f(**{"a": x, "b": y}) is f(a=x, b=y)
+            elif k.arg is None and v[0] == "new" and v[2] == "dict" and not v[3]:
+                pass                                                 # f(**{}) passes nothing
             elif k.arg is None and v[0] == "new" and v[2] == "dict" and v[3] and \
                     all(isinstance(i, tuple) and len(i) == 3 and i[0] == "kw" and i[1] != "**" for i in v[3]):
                 kwargs.extend((i[1], i[2]) for i in v[3])            # f(**dict(a=x, b=y)) likewise
@@ -2273,6 +2338,9 @@ class Summariser:
             return res
         # call of a call result, subscript, lambda ...
         recv = self._expr(f, events)
+        val = self._call_any(recv, args, kwargs, events, e)
+        if val is not None:
+            return val
         res = ("res", self.site(e), "expr-call", (recv,) + args, kwargs)
         events.append(Call("expr", None, recv, args, kwargs, res, line))
         return res
@@ -2501,7 +2569,8 @@ class Summariser:
         rebound afterwards (nonlocal, later assignments in the enclosing function) stay opaque."""
         site = self.site(node)
         opaque = ("lambda", site)
-        if node.decorator_list:
+        if any(ast.unparse(d.func if isinstance(d, ast.Call) else d) not in ("functools.wraps", "wraps")
+               for d in getattr(node, "decorator_list", ())):
             return opaque
         own = {a.arg for a in node.args.posonlyargs + node.args.args + node.args.kwonlyargs}
         if node.args.vararg:
@@ -2545,9 +2614,16 @@ class Summariser:
         if len(pos) > len(names) and a.vararg:
             params["*"] = ("tuple", tuple(pos[len(names):]))
         kwnames = set(names) | {x.arg for x in a.kwonlyargs}
+        extra_kw = []
         for n, v in dict(kwargs).items():
             if n in kwnames:
                 params[n] = v
+            elif n != "**":
+                extra_kw.append((n, v))
+        if a.kwarg and "**" not in dict(kwargs):
+            params["**"] = ("new", self.site(call_node), "dict", tuple(("kv", ("const", n), v) for n, v in extra_kw))
+        if a.vararg and "*" not in params and not any(isinstance(x, tuple) and x and x[0] == "star" for x in args):
+            params["*"] = ("tuple", ())
         for n, dflt in zip(names[len(names) - len(a.defaults):], a.defaults):
             if n not in params:
                 params[n] = self._expr_const(dflt, _defaults_of)
@@ -2558,6 +2634,9 @@ class Summariser:
                          ids=self.ids, stack=self.stack + (f"{call_node.lineno}:{call_node.col_offset}",),
                          loops=self.loops, owner=owner, fnstack=self.fnstack)
         sub.cls, sub.self_name, sub.is_static, sub.is_classmethod = cls, self_name, is_static, is_classmethod
+        if cls is None and any(v == ("self",) for v in params.values()):
+            sub.cls = self.cls          # a wrapper working on this very instance: its attributes are the fields
+            sub.field_prefix = self.field_prefix
         own_env = sub.env
         sub.env = dict(env)
         sub.env.update(own_env)
@@ -2710,6 +2789,19 @@ class Summariser:
             return self._dotted_call(recv[1], args, kwargs, events, e)
         if recv[0] == "closure" and recv[1] in self.prog.closures:
             return self.inline_closure(recv, args, kwargs, events, e)
+        if recv[0] == "funcref" and recv[1] in self.prog.funcrefs:
+            # the function a decorator received: called from the wrapper it returned
+            c, m, level = self.prog.funcrefs[recv[1]]
+            pos = self._expand_star(args, 1)
+            if c is None:
+                mod = self.prog.fn_module[id(m)]
+                return self.inline_function(mod, m, f"{mod.name}.{m.name}", tuple(pos), dict(kwargs), events, e, level=level)
+            static = any(ast.unparse(d) == "staticmethod" for d in m.decorator_list)
+            if not static:
+                if not pos or pos[0] != ("self",) or self.cls is None:
+                    raise Unsupported(f"wrapped method {m.name} called on another object at {self.module.path}:{e.lineno}")
+                pos = pos[1:]
+            return self.inline(c, m, tuple(pos), dict(kwargs), events, e, level=level)
         if recv[0] == "partial":
             fn, pargs, pkw = recv[1], recv[2], recv[3]
             kw = tuple(kv for kv in pkw if kv[0] not in dict(kwargs)) + tuple(kwargs)
@@ -2741,7 +2833,14 @@ class Summariser:
                 return ("sub", args[0], ("const", recv[2]))
             out = args[0]
             for part in str(recv[2]).split("."):
-                out = attr_of(out, part)
+                if out == ("self",) and self.cls is not None:
+                    # attrgetter("name")(self) reads the attribute like `self.name` does
+                    me = next((n for n, v in self.env.items() if v == ("self",)), self.self_name)
+                    node = ast.copy_location(ast.Attribute(value=ast.Name(id=me, ctx=ast.Load()), attr=part, ctx=ast.Load()), e)
+                    ast.fix_missing_locations(node)
+                    out = self._expr(node, events)
+                else:
+                    out = attr_of(out, part)
             return out
         if recv[0] == "methodcaller" and len(args) == 1 and not kwargs:
             margs, mkw = recv[2], recv[3]
@@ -2933,9 +3032,44 @@ class Summariser:
                 out.append(x)
         return out
 
-    def inline(self, c, m, args, kwargs, events, node):
+    def wrapper_of(self, c, m, level):
+        """The callable a decorated definition is bound to after its `level` innermost user decorators have been
+        applied: the decorator is run on a reference to the definition and must hand back a nested function
+        (closure) of the package, which is inlined wherever the definition is called."""
+        key = (c.qual if c is not None else None, m.name, m.lineno, level)
+        cache = self.prog.wrappers
+        if key not in cache:
+            d = user_decorators(m)[level - 1]
+            module = c.module if c is not None else self.prog.fn_module[id(m)]
+            where = f"{module.path}:{m.lineno}"
+            inner = (key[0], m.name, m.lineno, level - 1)
+            self.prog.funcrefs[inner] = (c, m, level - 1)
+            holder = ast.parse("def __decorate__(__wrapped__):\n    pass\n").body[0]
+            call = ast.Call(func=d, args=[ast.Name(id="__wrapped__", ctx=ast.Load())], keywords=[])
+            ast.copy_location(call, d)
+            ast.fix_missing_locations(call)
+            for n in ast.walk(holder):
+                if hasattr(n, "lineno"):
+                    n.lineno = n.end_lineno = m.lineno
+            sub = Summariser(self.prog, module, None, holder, params={"__wrapped__": ("funcref", inner)}, fields={},
+                             depth=0, ids=self.ids, stack=(f"deco:{m.name}:{m.lineno}:{level}",), fnstack=())
+            val = sub.expr(call, [])
+            if not (val[0] == "closure" and val[1] in self.prog.closures):
+                raise Unsupported(f"decorator @{ast.unparse(d)} on {m.name} at {where} is not followed "
+                                  f"(it does not return a nested function of the package)")
+            cache[key] = val
+        return cache[key]
+
+    def inline(self, c, m, args, kwargs, events, node, level=None):
         if self.depth >= self.MAX_DEPTH:
             raise Unsupported(f"inlining bound reached at {self.module.path}:{node.lineno} {ast.unparse(node)[:60]}")
+        if level is None:
+            level = len(user_decorators(m))
+        if level > 0:
+            w = self.wrapper_of(c, m, level)
+            static = any(ast.unparse(d) == "staticmethod" for d in m.decorator_list)
+            pos = tuple(args) if static else (("self",),) + tuple(args)
+            return self.inline_closure(w, pos, tuple(kwargs.items()), events, node)
         if m in self.fnstack:
             raise Unsupported(f"recursion at {self.module.path}:{node.lineno} {ast.unparse(node)[:60]}")
         a = m.args
@@ -2997,8 +3131,12 @@ class Summariser:
                 return False        # directly recursive
         return True
 
-    def inline_function(self, m, node, q, args, kwargs, events, call_node):
+    def inline_function(self, m, node, q, args, kwargs, events, call_node, level=None):
         """Inline a module-level package function (no self)."""
+        if level is None:
+            level = len(user_decorators(node))
+        if level > 0:
+            return self.inline_closure(self.wrapper_of(None, node, level), tuple(args), tuple(kwargs.items()), events, call_node)
         a = node.args
         _defaults_of = node
         names = [x.arg for x in a.posonlyargs + a.args]
